@@ -1,5 +1,6 @@
 (** C13 — every assembly routine of the module (amd64 and arm64) pinned by the
-    digest of its normalised body, and the DATA tables of the amd64 files by
+    digest of its canonical body (comments, spacing, label names and consistent
+    register renamings do not matter), and the DATA tables of the amd64 files by
     theirs.  [Gen/AsmAmd64.v] is regenerated from the .s files on every run; an
     edited routine body, a new or a removed routine changes [asm_digests] and
     breaks [asm_bodies_pinned]: the lane models were read from exactly these
@@ -13,54 +14,54 @@ Import ListNotations.
 Open Scope string_scope.
 
 Definition pinned_digests : list (string * string) := [
- ("addGreenToBlueAndRedAVX2", "b1404c5712ca25ff");
- ("addGreenToBlueAndRedNEON", "103304e382624b53");
- ("addGreenToBlueAndRedSSE2", "27f02d01a0209a58");
- ("cpuidAVX2Check", "efbc5e47a6dfa672");
- ("dc16asmNEON", "d32e36d3c068dda6");
- ("dc16asmSSE2", "6aee9a3894bfb326");
- ("dc8uvasmNEON", "d33ad736ad955686");
- ("dc8uvasmSSE2", "7269ff191d94ac40");
- ("dequantCoeffsSSE2", "e15203c710581204");
- ("fTransformAVX2", "5024407c312a5542");
- ("fTransformNEON", "93ec02e41b8247f8");
- ("fTransformSSE2", "18ae969b8b30acf2");
- ("fTransformWHTNEON", "bcc1ee03358d1676");
- ("fTransformWHTSSE2", "b934e6d60fdd6a07");
- ("he16asmNEON", "66e5f0eb82460f52");
- ("he16asmSSE2", "cbaadbcd3a0a1d09");
- ("he8uvasmNEON", "101a64dd9e420038");
- ("he8uvasmSSE2", "52f2512f68bb5373");
- ("iTransformOneAVX2", "88e0970c028ede5f");
- ("iTransformOneNEON", "49d761e859d68ffc");
- ("iTransformOneSSE2", "af9eeb57c16a9f3e");
- ("nzCountACSSE2", "95ed7d5f4f22219f");
- ("quantizeACAVX2", "f1ee11c56191c2dc");
- ("quantizeACSSE2", "3af33b22d12b4550");
- ("simpleVFilter16AVX2", "546e38b365251c5a");
- ("simpleVFilter16SSE2", "333af3f3caa66dd9");
- ("sse16x16AVX2", "aa8ca5ba8a95d951");
- ("sse16x16NEON", "f76f25daab39a4a8");
- ("sse16x16SSE2", "17142908b0c3b7c0");
- ("sse4x4NEON", "51744c444ad47011");
- ("sse4x4SSE2", "c3c7c02eaf63e6bd");
- ("subtractGreenAVX2", "bbe10a2c50d1a1dd");
- ("subtractGreenNEON", "b79af251ae90cd84");
- ("subtractGreenSSE2", "08302fa917b2b13f");
- ("tDisto4x4AVX2", "8bcc44af579f1710");
- ("tDisto4x4SSE2", "84e7a4494252191e");
- ("tm16asmNEON", "6ebae899ec1ece9f");
- ("tm16asmSSE2", "13191c3b71affcd6");
- ("tm8uvasmNEON", "63e1487ab1181ab0");
- ("tm8uvasmSSE2", "7a8a0d8aba643ee7");
- ("transformWHTNEON", "13291003454b5bbe");
- ("transformWHTSSE2", "d6f11003b351ce06");
- ("ve16asmNEON", "df7c5d842731c3de");
- ("ve16asmSSE2", "764fc223eaa1d3e1");
- ("ve8uvasmNEON", "6325d30cb16e17f8");
- ("ve8uvasmSSE2", "9cea1fa56f4669e7");
- ("yuvPackedToNRGBABatchAVX2", "5a8397e76948fd61");
- ("yuvPackedToNRGBABatchSSE2", "2d6c3083f23c13cc")
+ ("addGreenToBlueAndRedAVX2", "5abda48fb01f5b21");
+ ("addGreenToBlueAndRedNEON", "5240ee48b01ffd66");
+ ("addGreenToBlueAndRedSSE2", "669b32051e30c37b");
+ ("cpuidAVX2Check", "e676f3c9ad90ebb7");
+ ("dc16asmNEON", "22c3cc2b746d615a");
+ ("dc16asmSSE2", "151b4598ec70bfa4");
+ ("dc8uvasmNEON", "cd896b7461b2167c");
+ ("dc8uvasmSSE2", "39e24aaa05cd7ee5");
+ ("dequantCoeffsSSE2", "a659193433cdaa03");
+ ("fTransformAVX2", "567f1e3735ab117d");
+ ("fTransformNEON", "0ea7bb9b9899753e");
+ ("fTransformSSE2", "e1edacb058970359");
+ ("fTransformWHTNEON", "437da7603f97878d");
+ ("fTransformWHTSSE2", "98c14b635df56a11");
+ ("he16asmNEON", "072e939ad723ba5a");
+ ("he16asmSSE2", "e588f687f32fc148");
+ ("he8uvasmNEON", "e56572f149e1d3b9");
+ ("he8uvasmSSE2", "c3f5bcdbe1dcb677");
+ ("iTransformOneAVX2", "dc25d8f4e15915e6");
+ ("iTransformOneNEON", "7a1a9c7513174264");
+ ("iTransformOneSSE2", "fad7c2aa5d6fd686");
+ ("nzCountACSSE2", "d4ea7dfb9e8ee81c");
+ ("quantizeACAVX2", "e03e6c346a95d6f1");
+ ("quantizeACSSE2", "5adb9f954776e752");
+ ("simpleVFilter16AVX2", "7f46b783ef152254");
+ ("simpleVFilter16SSE2", "02e902883128e2da");
+ ("sse16x16AVX2", "b2e197a96fa2bdac");
+ ("sse16x16NEON", "a84a09e69a1bdd5d");
+ ("sse16x16SSE2", "df1f693d55ae6330");
+ ("sse4x4NEON", "2dfba460ece9ee49");
+ ("sse4x4SSE2", "b17e21cb6ab9f093");
+ ("subtractGreenAVX2", "aad67552addfd0c2");
+ ("subtractGreenNEON", "dcf686d9617c9614");
+ ("subtractGreenSSE2", "3f6864506180caad");
+ ("tDisto4x4AVX2", "84aef9202fba592e");
+ ("tDisto4x4SSE2", "fdab449fc8d8908e");
+ ("tm16asmNEON", "3b06b55b441dfa0c");
+ ("tm16asmSSE2", "565413565c5b31e1");
+ ("tm8uvasmNEON", "48b239481e740aa9");
+ ("tm8uvasmSSE2", "9c8c844313eccb42");
+ ("transformWHTNEON", "26ce1b15de80b7de");
+ ("transformWHTSSE2", "2af99508f7c6d81c");
+ ("ve16asmNEON", "4552de528bd47c1d");
+ ("ve16asmSSE2", "2a3a8fd5de9902a0");
+ ("ve8uvasmNEON", "25944432e0826973");
+ ("ve8uvasmSSE2", "9bd9a3c8549cb6a8");
+ ("yuvPackedToNRGBABatchAVX2", "1c5b5c60d4d783ea");
+ ("yuvPackedToNRGBABatchSSE2", "196e7c06489c33df")
 ].
 
 Definition pinned_data_digest : string := "4a33599003dee710".
